@@ -121,7 +121,7 @@ Build(p, b) ==
 \* ---- universes -------------------------------------------------------------------------------
 Names == {"x", "y"}
 Leaf == {PLit(N(1)), PName("x"), PName("y"), PWild, PExpr}
-Rests == {"none", "any", "t"}
+Rests == {"none", "any", "t", "x"}      \* "x" repeats a leaf name: the remainder must agree with it
 Seqs(A, lo, hi) == UNION {[1..n -> A] : n \in lo..hi}
 P1 == Leaf
       \cup {PArr(q, r) : q \in Seqs(Leaf, 0, 2), r \in Rests}
@@ -131,8 +131,8 @@ P1 == Leaf
       \cup {PTupFb([a \in h |-> PName("x")], "b", "y", N(7)) : h \in {{}, {"a"}}}
       \cup {PDict([kk \in ks |-> IF kk = N(1) THEN pa ELSE PName("y")], r) : ks \in {{N(1)}, {N(1), Str(<<107>>, 0)}}, pa \in Leaf, r \in Rests}
       \cup {PSet(ls, x, r) : ls \in {{}, {N(1)}, {N(1), N(2)}}, x \in {"-", "x"}, r \in Rests}
-P2 == P1 \cup {PArr(q, r) : q \in Seqs(P1 \ Leaf, 1, 1) \cup {<<a, b>> : a \in {PName("x"), PLit(N(1))}, b \in P1 \ Leaf}, r \in {"none", "t"}}
-         \cup {PTup([a \in {"a"} |-> q], r) : q \in P1 \ Leaf, r \in {"none", "t"}}
+P2 == P1 \cup {PArr(q, r) : q \in Seqs(P1 \ Leaf, 1, 1) \cup {<<a, b>> : a \in {PName("x"), PLit(N(1))}, b \in P1 \ Leaf}, r \in {"none", "t", "x"}}
+         \cup {PTup([a \in {"a"} |-> q], r) : q \in P1 \ Leaf, r \in {"none", "t", "x"}}
 V0 == {N(1), N(2), N(3)}
 ArrVals(A) == {Arr(q, 0) : q \in Seqs(A, 0, 3)}
 V1 == V0 \cup ArrVals({N(1), N(2)}) \cup {Arr(<<N(1), N(2)>>, 1), Arr(<<N(1), Hole, N(2)>>, 0), Arr(<<N(2)>>, -1)}
